@@ -50,7 +50,10 @@ pub fn rand_bank_cfg(r: &mut R, isolated: bool) -> BankConfigCompact {
     let li = lm + pick(r, &[0.0, 0.05, 0.2, 1.0]);
     c.liability_weight_init = wi(li);
     c.liability_weight_maint = wi(lm);
-    let z = r.gen_range(0..u32::MAX / 40);
+    // a seventh of the banks start at a base rate of exactly zero (and stay there over a first stretch
+    // of the curve): fixed fees are then all there is to accrue
+    let zero_start = r.gen_bool(0.15);
+    let z = if zero_start { 0 } else { r.gen_range(0..u32::MAX / 40) };
     let h = z + r.gen_range(0..u32::MAX / 4);
     c.interest_rate_config.zero_util_rate = z;
     c.interest_rate_config.hundred_util_rate = h;
@@ -61,7 +64,9 @@ pub fn rand_bank_cfg(r: &mut R, isolated: bool) -> BankConfigCompact {
     for i in 0..np {
         let remaining = (np - i) as u32;
         u = u.saturating_add(r.gen_range(1..(u32::MAX - u) / (remaining + 1) + 2)).min(u32::MAX - remaining);
-        rt = rt + r.gen_range(0..=(h - rt) / (remaining + 1));
+        if !(zero_start && i < 2) {
+            rt = rt + r.gen_range(0..=(h - rt) / (remaining + 1));
+        }
         pts.push(RatePoint::new(u.max(1), rt));
     }
     c.interest_rate_config.points = make_points(&pts);
